@@ -263,11 +263,17 @@ def _dis(frame):
   return d
 
 
+_BASE = None
+
+
 def _base_frames():
-  from ..gen import pktspec
-  fixed = st.sampled_from([f for _, f in corpus()])
-  built = pktspec.any_spec(64).map(P.build)
-  return st.one_of(fixed, built)
+  global _BASE
+  if _BASE is None:
+    from ..gen import pktspec
+    fixed = st.sampled_from([f for _, f in corpus()])
+    built = pktspec.any_spec(64).map(P.build)
+    _BASE = st.one_of(fixed, built)
+  return _BASE
 
 
 @st.composite
